@@ -7,6 +7,7 @@ import (
 	"sort"
 	"strconv"
 	"strings"
+	"time"
 
 	"verif/explore"
 	"verif/harness/dagh"
@@ -18,6 +19,7 @@ type dagCase struct {
 	K        int            `json:"k"`
 	D        int            `json:"d"`
 	Trace    []string       `json:"trace,omitempty"`
+	POR      bool           `json:"sleep_set_mode,omitempty"` // choices are thread ids of the sleep-set exploration, D is the rotation policy
 }
 
 // dagPass is one sweep over a scenario family with fixed deviation budgets.
@@ -112,6 +114,7 @@ func runDagCheck(c *RunCtx) {
 		pass  dagPass
 		pname string
 		sc    *dagh.Scenario
+		por   bool
 	}
 	var units []unit
 	for pi, pass := range passes {
@@ -128,7 +131,19 @@ func runDagCheck(c *RunCtx) {
 			if (sc.Light == 1 && pass.K+pass.D > 1) || (sc.Light == 2 && pass.K+pass.D > 0) {
 				continue
 			}
-			units = append(units, unit{pass, pname, sc})
+			units = append(units, unit{pass, pname, sc, false})
+		}
+	}
+	// thorough: unbounded sleep-set exploration of the small scenarios (every Mazurkiewicz trace)
+	if c.Tier == "thorough" && os.Getenv("VERIF_K") == "" {
+		for _, fam := range []string{c.ID} {
+			scs := fams[fam]
+			for _, sc := range scs {
+				if sc.N > 2 || !sc.Canon || sc.Light != 0 || sc.BigOutput || sc.History || sc.Rerun {
+					continue
+				}
+				units = append(units, unit{dagPass{fam, true, 99, 0}, "sleepset_unbounded_n<=2", sc, true})
+			}
 		}
 	}
 	// heaviest first, so that dynamic claiming packs well
@@ -147,6 +162,37 @@ func runDagCheck(c *RunCtx) {
 				break
 			}
 			pass, pname, sc := units[ui].pass, units[ui].pname, units[ui].sc
+			if units[ui].por {
+				t0 := time.Now()
+				msg, choices, policy, st, obs, terr := porScenario(c.ID, sc, c.Deadline, false, 0)
+				res.count("scenarios", 1)
+				res.count(pname+"_scenarios", 1)
+				res.count(pname+"_executions", st.Execs)
+				res.count(pname+"_executions_pruned_by_sleep_sets", st.Pruned)
+				res.Evaluations += st.Execs
+				res.Traces += st.Execs - st.Pruned
+				res.States += st.NewPoints
+				res.Distinct += int64(len(obs))
+				if st.Capped {
+					res.count(pname+"_scenarios_not_finished_before_the_deadline", 1)
+					res.Capped = true
+				} else {
+					res.count(pname+"_scenarios_completed", 1)
+				}
+				if terr != "" {
+					res.ToolError = fmt.Sprintf("%s on scenario %s (sleep-set mode)", terr, sc)
+					return
+				}
+				if msg != "" {
+					dc := dagCase{Scenario: sc, Choices: choices, K: 99, D: policy, POR: true}
+					raw, _ := json.Marshal(dc)
+					res.violate(Violation{Prop: c.ID, Msg: fmt.Sprintf("%s  [scenario: %s; sleep-set mode, rotation policy %d]", msg, sc, policy), Case: raw, Weight: 50000 + sc.N})
+				}
+				if os.Getenv("VERIF_DEBUG") != "" {
+					fmt.Fprintf(os.Stderr, "DBG sleepset execs=%d pruned=%d %.1fs capped=%v %s\n", st.Execs, st.Pruned, time.Since(t0).Seconds(), st.Capped, sc)
+				}
+				continue
+			}
 			kb, db := pass.K, pass.D
 			if sc.N >= 4 && kb > 2 {
 				kb = 2
@@ -262,6 +308,20 @@ func dagKnown(id string, sc *dagh.Scenario, msg string) string {
 }
 
 func replayDag(id string, dc *dagCase, trace func(string)) (string, error) {
+	if dc.POR {
+		ch := &explore.SSChooser{Prefix: dc.Choices, Policy: dc.D}
+		fs, _, _, _ := dagh.ExecutePOR(dc.Scenario, ch, trace)
+		if ch.Diverged != "" {
+			return "", fmt.Errorf("replay diverged: %s", ch.Diverged)
+		}
+		var mine []string
+		for _, f := range fs {
+			if propMatches(id, f) {
+				mine = append(mine, f.Msg)
+			}
+		}
+		return strings.Join(mine, "; "), nil
+	}
 	ch := &explore.Chooser{Prefix: dc.Choices}
 	fs, _, _, _ := dagh.Execute(dc.Scenario, ch, trace)
 	if ch.Diverged != "" {
